@@ -22,7 +22,7 @@ PROP = {
     "assumptions": [],
 }
 
-KINDS_BAD = ["resized-wrong", "wrong-len", "wrong-len0", "wrong-len1", "wrong-len-double", "wrong-len+256", "wrong-len+65536", "none", "int", "str", "ndarray", "foreign-track", "list"]
+KINDS_BAD = ["duck", "block-itself", "another-block", "resized-wrong", "wrong-len", "wrong-len0", "wrong-len1", "wrong-len-double", "wrong-len+256", "wrong-len+65536", "none", "int", "str", "ndarray", "foreign-track", "list"]
 
 
 def resize_track(t, tr, n, seed=0):
@@ -103,6 +103,18 @@ class Interp:
         if kind == "foreign-track":
             other = {"data3D": "emg", "force3D": "data3D", "emg": "force3D"}[self.t]
             return make_track(other, self.n, "f", self.counter), False
+        if kind == "duck":
+            # an object that merely LOOKS like a track of the right length (the attributes a track has), but is not one
+            import types
+
+            real = make_track(self.t, self.n, "duck", self.counter)
+            return types.SimpleNamespace(**{k: getattr(real, k) for k in ("label", "data", "application_point", "force", "torque", "nFrames", "nSamples", "nBytes", "_segments")
+                                            if hasattr(real, k)}, _write=real._write), False
+        if kind == "block-itself":
+            return self.b, False
+        if kind == "another-block":
+            other = Interp(self.ctx, {"t": self.t, "n": self.n, "tracks": 1})
+            return other.b, False
         return {"none": None, "int": 7, "str": "track", "ndarray": np.zeros((self.n, 3), dtype="<f4"), "list": [1, 2, 3]}[kind], False
 
     def check_invariant(self, where):
@@ -124,6 +136,18 @@ class Interp:
             self.ctx.fail(f"{self.t}/{where}/nBytes", f"{self.t}: nBytes {self.b.nBytes} but encoding has {len(w)} bytes")
 
     def apply(self, op):
+        if op.get("in_handler") and not getattr(self, "_in_handler", False):
+            # the call is made while the caller is handling an exception of its own (the fallback written inside an except block):
+            # same outcome as anywhere else
+            self._in_handler = True
+            self.stats["calls-inside-an-except-block"] = self.stats.get("calls-inside-an-except-block", 0) + 1
+            try:
+                try:
+                    raise KeyError("something of the caller's own went wrong")
+                except KeyError:
+                    return self.apply(dict(op, in_handler=False))
+            finally:
+                self._in_handler = False
         if op["op"] == "add":
             el, valid = self.element(op["kind"])
             try:
@@ -302,11 +326,11 @@ def inits(t):
 
 def ops(t):
     kind = st.sampled_from(["right", "right", "right", "resized-right"] + KINDS_BAD)
-    add = st.fixed_dictionaries({"op": st.just("add"), "kind": kind, "channel": st.sampled_from(["auto", "explicit"])})
+    add = st.fixed_dictionaries({"op": st.just("add"), "kind": kind, "channel": st.sampled_from(["auto", "explicit"]), "in_handler": st.sampled_from([False, False, False, True])})
     if t == "emg":
         return add
     elems = st.lists(st.sampled_from(["right"] * 6 + ["resized-right"] + KINDS_BAD), max_size=6)
-    assign = st.fixed_dictionaries({"op": st.just("assign"), "elems": elems,
+    assign = st.fixed_dictionaries({"op": st.just("assign"), "elems": elems, "in_handler": st.sampled_from([False, False, True]),
                                     "container": st.sampled_from(["list", "list", "tuple", "generator", "generator-raises", "non-iterable", "self", "object-array", "twice",
                                                                  "self-reversed", "self-iter", "self-filter", "self-chain", "copies-of-current", "copies-of-current"])})
     lend = st.fixed_dictionaries({"op": st.just("lend"), "k": st.integers(0, 5)})
